@@ -47,6 +47,9 @@ func execStep(lines *[]M, r *Runner, obs ObsSpec, label string, preLine int, pre
 	for k, v := range ev {
 		step[k] = v
 	}
+	if v, ok := ev["runtz"]; ok {
+		r.TZ = toInt(v)
+	}
 	step["prel"] = preLine
 	step["tz"] = r.TZ
 	isEnv, err := r.ApplyEnv(ev, contents)
